@@ -34,7 +34,7 @@ def generate(rng, index, tier):
         # one very deep sample: as many data records as a count the source names (or 30000), frames = 4 per record
         nrec = worlds.dict_size(rng, 270000) or 30000
         rows = [[0x1000 + 4 * i + j for j in range(4)] for i in range(nrec)]
-        ops = [worlds.op_imap(rng, rng.randbytes(16).hex(), 0x1000), worlds.op_sample(rng, flags=8, thd=None, uhdr=(1, 4 * nrec - rng.randrange(0, 3)), udata=rows)]
+        ops = [worlds.op_imap(rng, worlds.draw_uuid(rng), 0x1000), worlds.op_sample(rng, flags=8, thd=None, uhdr=(1, 4 * nrec - rng.randrange(0, 3)), udata=rows)]
         return {'threads': [{'tid': 500, 'ops': ops}], 'schedule': [], 'via_file': False, 't0': 0x100001, 'faults': [], 'requests': 1, 'huge': nrec}
     nimg = rng.randint(2, 8)
     if index % 307 == 13:
@@ -50,7 +50,7 @@ def generate(rng, index, tier):
         else:
             addrs.append(base + rng.randrange(0, 64 if nimg < 100 else 1 << 16) * 0x1000 if not rng.chance(0.06) else rng.pick([0, 1, (1 << 63) + 0x1000, (1 << 64) - 0x1000]))
     addrs = [a & 0xffffffffffffffff for a in addrs]          # a load address is one 64-bit word of the record
-    images = [{'addr': a, 'uuid': rng.randbytes(16).hex()} for a in addrs]
+    images = [{'addr': a, 'uuid': worlds.draw_uuid(rng)} for a in addrs]
     for im in images:
         if rng.chance(0.12):
             im['uuid'] = rng.pick(images)['uuid']       # the same identity at another address (a shared cache mapped twice)
